@@ -18,14 +18,15 @@ C03(r) == (r.e \in {"Probe", "EbProbe"} /\ r.ok) => StructValid(r.sv)
 \*   predicted accept  => if the later stages accept too, the points and faces are the ones the model computed
 \*   predicted "ub"    => the decoder would index a table with an invalid id: it cannot come back with a record at all
 \*   nesting: a chain of D sub-metadata blocks has levels 0 .. D-1 (children of the root are level 0); refused when a level exceeds 1000
-EbDrift(r) == (r.e = "EbProbe" /\ r.mode # "kd") =>
+EbDrift(r) == (r.e = "EbProbe" /\ r.mode \notin {"kd", "ia"}) =>
    Drift(/\ (r.pk = "rej" => ~r.ok)
          /\ ((r.pred = "acc" /\ r.ok) => (r.np = r.pred_np /\ r.faces = r.pred_faces))
          /\ ((r.pred = "acc" /\ r.natt = 0 /\ r.pred_np > 0) => r.ok)      \* without attribute decoders nothing later can refuse
          /\ r.pk # "ub", "EbDecoder prediction")
 \* kd-tree rows (module KdTree): the real encoder writes the bytes assembled from the model's request lists (honest rows); the real decoder accepts
 \* exactly what the model accepts -- nothing behind the kd-tree payload can refuse a uint32 attribute -- and returns the model's points in the model's order
-KdDrift(r) == (r.e = "EbProbe" /\ r.mode = "kd") =>
+\* integer attribute rows (module IntAttr, mode "ia"): the same clause; rows the model leaves open ("any:...") are exempt
+KdDrift(r) == (r.e = "EbProbe" /\ r.mode \in {"kd", "ia"} /\ r.pk \in {"acc", "rej"}) =>
    Drift(/\ r.enc_same
          /\ (r.pred = "acc") = r.ok
          /\ (r.ok => r.pts = r.pred_pts), "KdTree prediction")
